@@ -331,6 +331,7 @@ func Check[C any](t *testing.T, r *Rec, sub string, checks int, gen func(*rapid.
 	if rp := os.Getenv("VERIF_REPLAY"); rp != "" {
 		return
 	}
+	regress(r, sub, run)
 	var lastCase *C
 	var lastViol []Violation
 	flagMu.Lock()
@@ -355,6 +356,41 @@ func Check[C any](t *testing.T, r *Rec, sub string, checks int, gen func(*rapid.
 	if lastCase != nil {
 		for _, v := range lastViol {
 			r.Report(sub, v, *lastCase)
+		}
+	}
+}
+
+// regress re-runs the saved regression cases of this sub-check (VERIF_REGRESS/*.json, replay-file
+// format: shrunk failing cases of repaired defects and of seeded breakages) as plain cases, without
+// the library, before the generated search starts. The files are spread over the shards.
+func regress[C any](r *Rec, sub string, run func(C) []Violation) {
+	dir := os.Getenv("VERIF_REGRESS")
+	if dir == "" {
+		return
+	}
+	files, _ := filepath.Glob(filepath.Join(dir, "*.json"))
+	sort.Strings(files)
+	k := 0
+	for _, f := range files {
+		b, err := os.ReadFile(f)
+		if err != nil {
+			continue
+		}
+		var rf ReplayFile
+		if json.Unmarshal(b, &rf) != nil || rf.Sub != sub || rf.Property != r.ID {
+			continue
+		}
+		k++
+		if k%r.Shards() != r.Shard() {
+			continue
+		}
+		var c C
+		if json.Unmarshal(rf.Case, &c) != nil {
+			continue
+		}
+		r.Class("regression-corpus/" + sub)
+		for _, v := range r.Split(SafeRun(run, c)) {
+			r.Report(sub, v, c)
 		}
 	}
 }
